@@ -92,7 +92,12 @@ impl Exec for Reduce {
 
 impl ReturnType for Reduce {
     fn return_type(&self) -> Type {
-        self.function.return_type().return_type().unwrap() | self.initial_value.return_type()
+        // the function is a function, or - once a constant condition was folded away - of type `!`
+        self.function
+            .return_type()
+            .return_type()
+            .unwrap_or(Type::Never)
+            | self.initial_value.return_type()
     }
 }
 
